@@ -31,6 +31,16 @@ CFG = dict(
         # dedicated probe with ONE case: 10^5 and 10^6 nested tags / arrays through consume_next_whole_data_item
         # (each in a forked child); its failure class has its own key C04:cbor:consume:recursion-depth
         seq("rel_cbor_deep", "rel", SRC, 1, 1, mode="cbor-deep", nprocs=1),
+        # coverage-guided stage: 16 libFuzzer sessions (clang 14, fuzzer-no-link + ASan + gating UBSan), one per
+        # process, target = case index mod 14, started from the committed seeds; -runs from p1; the same run_<target>
+        # functions and oracle as above. Each process runs exactly one session (libFuzzer exits the process).
+        seq("fuzz", "fuzz", SRC, 16, 16, mode="fuzz:xml,json,cborpop,cborwhole,uri,query,pctdec,date," + ALL_TEXT,
+            params={1: 60000}, extra_cflags="-DC04_LIBFUZZER=1", nprocs=16, per_proc_timeout=1800),
+        # census (thorough only): full -fsanitize=undefined with recovery; reports are de-duplicated into the
+        # evidence as notes (ubsan_census_non_gating) and never gate (DESIGN.md 4.3)
+        seq("census", "ubcen", SRC, 0, 14 * 60000, mode="all"),
+        seq("fuzz_deep", "fuzz", SRC, 0, 16, mode="fuzz:xml,json,cborpop,cborwhole,uri,query,pctdec,date," + ALL_TEXT,
+            params={1: 3000000}, extra_cflags="-DC04_LIBFUZZER=1", nprocs=16, per_proc_timeout=7200),
     ],
     rule=("case = one input for one target API (XML parse with a callback program carried in the input's tail; JSON "
           "parse/walk with every getter/print both ways/duplicate; CBOR peek+pop loop and consume-whole-item loop; URI "
@@ -65,6 +75,7 @@ CFG = dict(
         "uuid.accepted": 50, "uuid.rejected": 50, "ip.accepted": 50, "ip.rejected": 50, "u64.accepted": 50, "u64.rejected": 50,
         "guard_page_after_input": 1000, "guard_page_before_input": 1000, "short_output_refused": 100,
         "corpus_files_loaded": 247, "seed_cases": 300, "nesting_ge_8": 100, "cbor-deep.cases": 1,
+        "fuzz.sessions": 16, "fuzz.executions": 400000,
     }},
 )
 
